@@ -205,20 +205,55 @@ pub fn log_templates(bin: &Path, scratch: &Path) -> &'static [Vec<String>; 3] {
 }
 
 pub fn strip_log_lines_with(templates: &[Vec<String>; 3], stdout: &[u8], path: &Path, level: u8) -> (Vec<u8>, bool) {
-    let mut rest = stdout;
     let lines = &templates[level.min(2) as usize];
-    let mut stripped = 0;
     let p = path.to_str().unwrap_or("");
-    for l in lines {
-        let line = l.replace("{path}", p);
+    let concrete: Vec<String> = lines.iter().map(|l| l.replace("{path}", p)).collect();
+    // common prefix of the tool's log lines (`==> `): further informational log lines may carry run-specific text
+    let mut prefix: String = concrete.first().cloned().unwrap_or_default();
+    for l in &concrete {
+        let n = prefix.chars().zip(l.chars()).take_while(|(a, b)| a == b).count();
+        prefix = prefix.chars().take(n).collect();
+    }
+    let last = concrete.last().cloned().unwrap_or_default();
+    if prefix.chars().count() >= 2 && !last.is_empty() {
+        // 1. everything up to the last log line ("running code"), provided only log lines precede it
+        let mut pos = 0usize;
+        let mut ok = true;
+        while pos < stdout.len() {
+            let rest = &stdout[pos..];
+            if rest.starts_with(last.as_bytes()) {
+                return (rest[last.len()..].to_vec(), true);
+            }
+            if !rest.starts_with(prefix.as_bytes()) {
+                ok = false;
+                break;
+            }
+            match rest.iter().position(|&b| b == b'\n') {
+                Some(n) => pos += n + 1,
+                None => {
+                    pos = stdout.len();
+                }
+            }
+        }
+        if ok {
+            // 2. only log lines and the run ended before "running code" (error during optimisation)
+            return (Vec::new(), false);
+        }
+        // log lines, then something else without the final log line: strip the leading log lines
+        return (stdout[pos..].to_vec(), false);
+    }
+    // fallback: exact template lines, each optional
+    let mut rest = stdout;
+    let mut stripped = 0;
+    for line in &concrete {
         if !line.is_empty() && rest.starts_with(line.as_bytes()) {
             rest = &rest[line.len()..];
             stripped += 1;
         } else {
-            break; // an error can end the run before the later log lines are printed
+            break;
         }
     }
-    (rest.to_vec(), stripped == lines.len())
+    (rest.to_vec(), stripped == concrete.len())
 }
 
 pub fn strip_log_lines(stdout: &[u8], path: &Path, level: u8) -> (Vec<u8>, bool) {
